@@ -11,8 +11,12 @@ fn main() {
         "codec_replay" => vharness::codecrec::codec_replay(&a),
         "mac" => vharness::macdrv::vh_mac(&a),
         "macreplay" => vharness::macdrv::vh_macreplay(&a),
+        "fcnt" => vharness::macdrv::vh_fcnt(&a),
         "phy" => vharness::phydrv::vh_phy(&a),
         "phyreplay" => vharness::phydrv::vh_phyreplay(&a),
+        "fetch" => vharness::wirerec::vh_fetch(&a),
+        "decode" => vharness::wirerec::vh_decode(&a),
+        "wire" => vharness::wirerec::vh_wire(&a),
         other => {
             eprintln!("unknown command {other}");
             std::process::exit(2);
